@@ -65,10 +65,48 @@ def gen_cases(rng, tier):
                 h += ['t%d' % (T + 60)]
                 cases.append({'id': 'c17-two-%d' % tj, 'cfg': cfg, 'hist': h, 'sub': 'lsim', 'tags': {'eager': eager, 'mode': 'same-list-on-two-keys', 'pattern': pat}})
                 tj += 1
+    # "one press held until the final release", seen from the OS: while the final tap is held the chosen action's key is down and the
+    # OS repeats of the physical key are forwarded as repeats of that key (lazy and eager, every count, list exhausted or timed out)
+    hj = 0
+    for eager in (False, True):
+        for T in (30, 100):
+            for n in (1, 2, 3):
+                for layered in (False, True):
+                    td = '(%s %d (x y z))' % ('tap-dance-eager' if eager else 'tap-dance', T)
+                    if layered:
+                        cfg = '(defsrc a s)\n(deflayer l0 b (layer-while-held l1))\n(deflayer l1 %s _)' % td
+                        h = ['d31', 't3']
+                    else:
+                        cfg = '(defsrc a s)\n(deflayer l0 %s b)' % td
+                        h = ['t3']
+                    for _ in range(n - 1):
+                        h += ['d30', 't3', 'u30', 't4']
+                    h += ['d30', 't%d' % (T + 40)]
+                    now = sum(int(t[1:]) for t in h if t[0] == 't')
+                    h += ['r30', 't2', 'r30', 't5', 'u30', 't%d' % (T + 60)] + (['u31', 't5'] if layered else [])
+                    cases.append({'id': 'c17-held-%d' % hj, 'cfg': cfg, 'hist': h, 'sub': 'ksim', 'heldrep': {'code': [45, 21, 44][n - 1], 'ticks': [now, now + 2]},
+                                  'tags': {'eager': eager, 'mode': 'final-tap-held-with-os-repeats', 'taps': n}})
+                    hj += 1
     return cases
 
 
+def oracle_held(c, it):
+    import re
+    want = c['heldrep']
+    seen = {}
+    for l in it:
+        m = re.match(r'R@(\d+) (\d+) : ?(.*)', l)
+        if m:
+            seen[int(m.group(1))] = m.group(3).split()
+    for t in want['ticks']:
+        if seen.get(t) != ['d%d' % want['code']]:
+            return 'tap-dance resolved to key %d and held: the OS repeat at tick %d produced %s, expected a repeat of that key' % (want['code'], t, seen.get(t))
+    return None
+
+
 def oracle(c, it):
+    if 'heldrep' in c and it and not it[0].startswith('PARSE-') and not any(l.startswith(('PANIC', 'ABORT', 'HANG')) for l in it):
+        return oracle_held(c, it)
     if 'spec' not in c or not it or it[0].startswith('PARSE-') or any(l.startswith(('PANIC', 'ABORT', 'HANG')) for l in it):
         return None
     sp = c['spec']
